@@ -24,7 +24,7 @@ ASSUMPTIONS = [
     "absent entries differ from every present entry by far more than the library's documented fuzzy entry equality (rel 1e-9)",
     "deleteEntry of an absent entry must raise (any exception type)",
 ]
-REQUIRED_CLASSES = ["history:delete_absent_same_time", "history:collision_merge_many", "history:collision_replace", "history:delete_absent",
+REQUIRED_CLASSES = ["history:collision_by_nanoseconds", "history:delete_absent_same_time", "history:collision_merge_many", "history:collision_replace", "history:delete_absent",
                     "history:insert_outside_span", "history:point_collision"]
 
 
@@ -132,6 +132,8 @@ def run_history(case):
             if status == "collision":
                 raise Violation("collision-not-raised", f"{what}: collides with {m} but no CollisionError")
             new_entry, allowed = info
+            if m and model.is_int and any(0 < min(x[1], entry[1]) - max(x[0], entry[0]) < 1e-8 for x in m):
+                classes.add("collision_by_nanoseconds")
             if m:
                 n_coll += 1
                 classes.add("point_collision" if not model.is_int else
@@ -227,7 +229,13 @@ def histories(draw):
                 a, b = draw(lat), draw(lat)
                 if a == b:
                     b = a + 0.5
-                entry = [min(a, b), max(a, b), draw(lab)]
+                a, b = min(a, b), max(a, b)
+                r = draw(st.integers(0, 9))
+                if r == 0 and a >= 1e-6:
+                    a = a - 5e-9  # reaches a few nanoseconds into whatever ends at the lattice point
+                elif r == 1:
+                    b = b + 5e-9
+                entry = [a, b, draw(lab)]
             else:
                 entry = [draw(lat), draw(lab)]
             ops.append({"op": "insert", "entry": entry, "mode": draw(st.sampled_from(["error", "replace", "merge", "merge"])),
